@@ -129,6 +129,8 @@ def _run_case(ctx, case):
         return
     try:
         r = getattr(f, method)(*args, **kwargs)
+        if len(text) % 2:
+            r = getattr(f, method)(*args, **kwargs)      # asked again: same answer expected
     except Exception as ex:  # noqa
         ctx.judge(False, case, mech=classify(case, []), expected=ref, got=repr(ex),
                   nontrivial=nontrivial)
